@@ -689,6 +689,22 @@ def mpi_rules(ctx):
                 # root buffers allocated alike
                 gb = pg[1] if len(pg) > 1 else None
                 sb = ps[0] if ps else None
+                # what the root sends out is what the comb wrote: a send buffer that is, on the root, still the bare
+                # allocation (np.zeros(..) that nothing was stored into -- at best the Gather filled it with the old
+                # population) drops the selection
+                if sb is not None:
+                    def _leaves(t_):
+                        t_ = strip_wrappers(t_)
+                        if t_.op in ("phi", "ifexp") and len(t_.args) == 3:
+                            return _leaves(t_.args[1]) + _leaves(t_.args[2])
+                        return [t_]
+                    lv_ = [x_ for x_ in _leaves(sb) if not is_const(x_, None)]
+                    bare = [x_ for x_ in lv_ if x_.op == "call" and array_fn(x_) in ("zeros", "empty", "zeros_like", "empty_like")]
+                    if lv_:
+                        ctx.ob("MPI-2", f"{q}: Scatter #{k} sends a buffer the comb has written", len(bare) < len(lv_),
+                               f"root send buffer {show(lv_[0], maxdepth=2)[:60]}" + (
+                                   " is only allocated (or filled by the Gather): the combed population is never sent"
+                                   if len(bare) == len(lv_) else ""), fi, es.line)
                 if gb is not None and sb is not None and (_alloc_shape(gb) is None or _alloc_shape(sb) is None):
                     ctx.rep.note(f"{q}: the root buffer of Gather / Scatter #{k} is allocated in a way the value graph does "
                                  f"not follow ({show(gb if _alloc_shape(gb) is None else sb, maxdepth=2)[:60]}); the extent "
